@@ -454,6 +454,19 @@ class Discharger(object):
         res2, m2 = self.check(list(pc) + base + self.cut_links(ta2) + self.cut_links(tb2) + neq, want_model=True)
         if res2 == z3.unsat:
             return 'unsat', None
+        if res2 == z3.sat and (subs_a or subs_b):
+            # the abstraction of library calls by fresh variables loses congruence: re-check with the calls intact
+            if tol == 0:
+                neq3 = [ta != tb]
+            else:
+                neq3 = [z3.Or(ta - tb > tq, tb - ta > tq)]
+            base3 = side + self.cut_ranges(ta) + self.cut_ranges(tb) + list(self.ex.fc.real_assumes) + [d != 0 for d in self.ex.fdivs]
+            res3, m3 = self.check(list(pc) + base3 + self.cut_links(ta) + self.cut_links(tb) + neq3, want_model=True)
+            if res3 == z3.unsat:
+                return 'unsat', None
+            if res3 == z3.sat:
+                return 'sat', m3
+            return 'unknown', m2
         if res2 == z3.sat:
             return 'sat', m2
         return ('sat-abstract' if res == z3.sat else 'unknown'), m
